@@ -779,7 +779,7 @@ struct WStats
 };
 static WStats *g_ws = nullptr;
 
-static void print_summary()
+static void print_summary(bool partial = false)
 {
   if (!g_ws)
     return;
@@ -797,9 +797,12 @@ static void print_summary()
       fclose(f);
     }
   };
-  dump(w.hashes, "hashes");
-  dump(w.hashes_nt, "hashesnt");
-  dump(w.sigs, "sigs");
+  if (!partial)
+  {
+    dump(w.hashes, "hashes");
+    dump(w.hashes_nt, "hashesnt");
+    dump(w.sigs, "sigs");
+  }
   json j;
   j["worker"]      = g_widx;
   j["runs"]        = w.runs;
@@ -824,7 +827,7 @@ static void print_summary()
   j["probes"]     = w.probes_total;
   j["violations"] = w.viol;
   j["samples"]    = w.samples;
-  printf("SUMMARY %s\n", j.dump().c_str());
+  printf("%s %s\n", partial ? "PARTIAL" : "SUMMARY", j.dump().c_str());
   fflush(stdout);
 }
 
@@ -882,6 +885,13 @@ static int worker_main(const std::string &prop,
       double s = std::chrono::duration<double>(std::chrono::steady_clock::now() - ws.t0).count();
       if (s >= budget_s)
         break;
+      // what has been explored so far survives a sanitizer abort of this process
+      static double last_partial = 0;
+      if (s - last_partial >= (s < 2.0 ? 0.2 : 2.0))
+      {
+        last_partial = s;
+        print_summary(true);
+      }
     }
     g_cur_ix = index;
     if (g_status_fd >= 0)
